@@ -234,7 +234,7 @@ ROUND7 = {
  'C09': " The kernel contracts the pair sum relies on (gradient, non-negativity, support, knots of C08) are re-proved here.",
  'C10': " The initial acceleration is computed before the first step (startup order, re-proved for C19 as dep:C10:solve).",
  'C13': " The first-order consistency contract of C14 (dep:C14:order1) is re-proved here because it consumes gj_solve.",
- 'C14': " 'evaluator': SPHEvaluator wires the arrays, equations, kernel and domain it was given into the acceleration evaluator it builds.",
+ 'C14': " 'evaluator': SPHEvaluator wires the arrays, equations, kernel and domain it was given into the acceleration evaluator it builds. BOUNDED stand-in (never counted as proved): the real Interpolator with its generated, compiled evaluator against the defining sums evaluated with numpy, through interpolate / move+update / set_interpolation_points / update_particle_arrays, open and periodic (contracts/c14_native_walk.py).",
  'C16': " Ghost set-up with inlet-only and outlet-only configurations. BOUNDED stand-in (never counted as proved): random histories of update calls on the real Inlet/Outlet classes of all five families with random 3-D normals, compared after every update with the bookkeeping of the property (contracts/c16_history_walk.py).",
  'C17': " BOUNDED stand-in (never counted as proved): every class implementing get_spatially_ordered_indices re-ordered repeatedly on the built extensions (typed/strided properties, non-local tags): permutation, whole records, real-first order, exact queries after the following update (contracts/c17_native_walk.py).",
  'C19': " dep:C10:solve: the solver loop computes the time step from the state the step will use.",
@@ -243,6 +243,25 @@ ROUND7 = {
 for _c in CHECKS:
     if _c['id'] in ROUND7:
         _c['text'] = _c['text'] + ROUND7[_c['id']]
+
+# round 8 additions
+ROUND8 = {
+ 'C01': " 'nnpsinit': the domain manager in use (given or default) is told the arrays and the radius scale; set_use_cache(True) invalidates every cache. 'update' now requires the loaded (source, destination) pair to be loaded again after the rebuild (defect repaired: 9223007).",
+ 'C02': " 'nbrctx': the template's set_context call against the callee's signature. From the property, not the code: every instance of a class reaches the wrapper's type inference, one wrapper per class (not per class name), Python hooks and compiled methods share one object - three OPEN findings with native replays.",
+ 'C03': " BOUNDED 'hooks': inherited hook methods count as defined.",
+ 'C04': " Property names containing underscores in the stepper array set-up.",
+ 'C05': " Solver.reorder_particles updates the neighbour search BEFORE asking for the order (defect repaired: 5c32297); C01's bounded native oracle over all twelve classes and 'nnpsinit' are re-run here.",
+ 'C06': " clear() forgets strides and the real count, appended constants are copies (defects repaired: 6484c23); the model walk also clears and checks that constants are not shared.",
+ 'C10': " The constructor's store to output_at_times depends on the parameter alone (not on tf).",
+ 'C13': " Completeness witnesses for badly scaled regular systems.",
+ 'C14': " Property-level Shepard lemma (mean for EVERY positive weight; open finding: absolute 1e-12 threshold); native walk checks the target h and integer-typed targets; bounded case for a set in the x-z plane (open finding).",
+ 'C16': " Zone length is the extent along the zone NORMAL plus one spacing, against ghost extremes of p.n (defect repaired: 504a948); update_cls defaults, several zones of one kind; every fluid array wired to every zone (open finding).",
+ 'C17': " _refresh: as many heads as the occupied-cells hook asks for and n_cells equal to that number (BoxSortNNPS inherits the walk); native walk includes BoxSort/CellIndexing and Solver.reorder_particles after update_domain() on a periodic box (defect repaired: 5c32297).",
+ 'C19': " The h minimum is current only after update_min_max() (ghost state in the model), dt_adapt is read over the REAL particles (defects repaired: 81a3836); replays on compiled particle arrays.",
+}
+for _c in CHECKS:
+    if _c['id'] in ROUND8:
+        _c['text'] = _c['text'] + ROUND8[_c['id']]
 
 NOT_APPLICABLE = [
  dict(property_id='C11', reason="round trip runs through numpy.savez/numpy.load/h5py and the compiled ParticleArray constructor; the repository code in between is dict/bytes glue no contract within reach can express (DESIGN.md section 4)"),
